@@ -576,12 +576,15 @@ def _eval_u8(e, env):
         e = e[1]
     if e[0] == "const" and isinstance(e[1], int):
         return e[1]
-    if e[0] == "var":
-        if e[1] in env:
-            return env[e[1]]
-        raise _NoEval("free variable " + e[1])
+    if e[0] in ("var", "field") and not (e[0] == "field" and e[2] in (0, "0") and e[1][0] == "bin"):
+        kx = _leaf_key(e)
+        if kx in env:
+            return env[kx]
+        raise _NoEval("free variable " + kx)
     if e[0] == "cast":
         return _eval_u8(e[1], env) if len(e) > 1 else None
+    if e[0] == "call" and re.search(r"(From::from|Into::into)$", e[1]) and len(e[2]) == 1:
+        return _eval_u8(e[2][0], env)      # lossless integer widening
     if e[0] == "un" and e[1] == "Not":
         return (~_eval_u8(e[2], env)) & 0xff
     if e[0] == "bin":
@@ -625,31 +628,80 @@ def check_prefix_membership(prog, r):
     for kk in prog.with_closures(k):
         fv = view(prog, kk)
         rend = Renderer(fv, depth=14, through_names=True)
-        for bi, br in branches(fv, rend).items():
-            e = br.expr
-            if not (e[0] == "bin" and e[1] in ("Eq", "Ne")):
+        cands = [(bi, br.expr, br) for bi, br in branches(fv, rend).items()]
+        for bi in sorted(fv.live):          # .. or the comparison is the value returned / stored, not a branch
+            for st in fv.blocks[bi]["s"]:
+                if st.get("rv") and st["rv"]["r"] == "bin" and st["rv"].get("op") in ("Eq", "Ne"):
+                    cands.append((bi, rend.rvalue(st["rv"], 14), None))
+        seen_e = set()
+        for bi, e, br in cands:
+            if not (e[0] == "bin" and e[1] in ("Eq", "Ne")) or (bi, e[1]) in seen_e:
                 continue
+            seen_e.add((bi, e[1]))
             for side in (e[2], e[3]):
                 x = side
                 while x[0] in ("ref", "deref"):
                     x = x[1]
                 if x[0] == "bin" and x[1] == "BitAnd":
                     for m_, o_ in ((x[2], x[3]), (x[3], x[2])):
-                        idx = [y for y in walk(o_) if isinstance(y, tuple) and y and y[0] == "call" and y[1].endswith("Index::index")]
-                        if idx and not any(isinstance(y, tuple) and y and y[0] == "call" for y in walk(m_)):
-                            sites.append((fv, bi, m_, idx[0][2][1], br))
-    if len(sites) != 1:
-        r.unanalysable("IpNet::contains: %d masked octet comparisons (want 1)" % len(sites), view(prog, k).loc())
+                        idx = [y[2][1] for y in walk(o_) if isinstance(y, tuple) and y and y[0] == "call" and y[1].endswith("Index::index")]
+                        idx += [y[2] for y in walk(o_) if isinstance(y, tuple) and y and y[0] == "index"]
+                        if idx and not any(isinstance(y, tuple) and y and (y[0] == "call" or y[0] == "index") for y in walk(m_)):
+                            sites.append((fv, bi, m_, idx[0], br))
+    if not sites:
+        r.unanalysable("IpNet::contains: no masked octet comparison found", view(prog, k).loc())
         return
-    fv, bi, m_, idx, br = sites[0]
-    params = [fv.local_name.get(l) for l in range(2, fv.f.get("argc", 0) + 1)]
-    free = sorted({v for v in expr_vars(m_)} | {v for v in expr_vars(idx)})
-    if len(free) != 1 or free[0] not in params:
+    for site in sites:
+        _check_mask_site(prog, k, r, site)
+    r.floor("masked octet comparisons in IpNet::contains", len(sites), 1)
+
+
+def _leaf_key(e):
+    """A named field is the same quantity through whichever alias of its owner it is read (`self`, a tuple of references built
+    for a `match`, a pattern binding): key it by the field name."""
+    if e[0] == "field" and isinstance(e[2], str) and not e[2].isdigit():
+        return "." + e[2]
+    return show(e, 200)
+
+
+def _leaves(e, out):
+    while isinstance(e, tuple) and e and e[0] in ("ref", "deref"):
+        e = e[1]
+    if not isinstance(e, tuple) or not e:
+        return
+    if e[0] in ("var", "field") and not (e[0] == "field" and e[2] in (0, "0") and e[1][0] == "bin"):
+        out.add(_leaf_key(e))
+        return
+    if e[0] == "cast":
+        _leaves(e[1], out)
+    elif e[0] == "call" and re.search(r"(From::from|Into::into)$", e[1]) and len(e[2]) == 1:
+        _leaves(e[2][0], out)
+    elif e[0] == "un":
+        _leaves(e[2], out)
+    elif e[0] == "bin":
+        _leaves(e[2], out)
+        _leaves(e[3], out)
+    elif e[0] == "field":
+        _leaves(e[1], out)
+
+
+def _check_mask_site(prog, k, r, site):
+    fv, bi, m_, idx, br = site
+    fl = set()
+    _leaves(m_, fl)
+    _leaves(idx, fl)
+    free = sorted(fl)
+    if len(free) != 1:
         r.unanalysable("IpNet::contains: partial-octet mask depends on %s (want: the prefix length only)" % free, fv.loc(bi))
         return
     # guards under which the masked comparison is made (r > 0 in today's spelling): evaluate them too, the comparison must be
     # made for every length with a partial octet
-    gs = [(g.expr, l) for g, l in guards_of(fv, bi, branches(fv, Renderer(fv, depth=14, through_names=True))) if set(expr_vars(g.expr)) <= set(free) and g.expr[0] == "bin"]
+    def _only_len(e):
+        o = set()
+        _leaves(e[2], o)
+        _leaves(e[3], o)
+        return bool(o) and o <= set(free)
+    gs = [(g.expr, l) for g, l in guards_of(fv, bi, branches(fv, Renderer(fv, depth=14, through_names=True))) if g.expr[0] == "bin" and g.expr[1] in ("Gt", "Ge", "Lt", "Le", "Eq", "Ne") and _only_len(g.expr)]
     bad = None
     for n in range(0, 129):
         env = {free[0]: n}
